@@ -63,16 +63,71 @@ def _work(args):
         return [("machinery_failure", (f"worker failed: {traceback.format_exc()[-1500:]}",))]
 
 
+def _child(conn, args):
+    try:
+        conn.send(_work(args))
+    finally:
+        conn.close()
+
+
 def map_cases(rep, modname: str, fname: str, cases: list, *, nproc: int = 14, chunk: int = 24, x64: bool = True,
-              clear_every: int = 40, maxtasks: int = 6):
-    """Apply module.function(report, case) to every case, in parallel; results are merged into `rep` in case order."""
+              clear_every: int = 40, maxtasks: int = 6, chunk_timeout: int = 2400):
+    """Apply module.function(report, case) to every case, in parallel; results are merged into `rep` in case order.
+
+    One process per chunk, watched by the parent: a worker that dies (XLA's CPU code has been seen to segfault on a few
+    generated programs, and a dead worker makes multiprocessing.Pool wait for ever) or exceeds `chunk_timeout` has its chunk
+    re-run case by case, each case in a process of its own; a case that kills its own process is skipped with a note --
+    it cannot be evaluated in this environment, which is neither a violation nor evidence that the property holds."""
+    import time
+    from collections import deque
     if not cases:
         return
-    chunks = [cases[i:i + chunk] for i in range(0, len(cases), chunk)]
-    nproc = max(1, min(nproc, len(chunks)))
     ctx = mp.get_context("spawn")
-    with ctx.Pool(nproc, maxtasksperchild=maxtasks) as pool:
-        results = pool.map(_work, [(modname, fname, ch, rep.seed, x64, clear_every) for ch in chunks], chunksize=1)
-    for calls in results:
-        for name, args in calls:
+    chunks = [cases[i:i + chunk] for i in range(0, len(cases), chunk)]
+    pending = deque(((ci, 0), ch) for ci, ch in enumerate(chunks))
+    nproc = max(1, min(nproc, len(chunks)))
+    running, results = {}, {}
+    while pending or running:
+        while pending and len(running) < nproc:
+            key, ch = pending.popleft()
+            parent, child = ctx.Pipe(duplex=False)
+            p = ctx.Process(target=_child, args=(child, (modname, fname, ch, rep.seed, x64, clear_every)), daemon=True)
+            p.start()
+            child.close()
+            running[key] = (p, parent, ch, time.time())
+        done = []
+        for key, (p, conn, ch, t0) in running.items():
+            got = None
+            try:
+                if conn.poll():
+                    got = conn.recv()
+            except (EOFError, OSError):
+                got = None
+            if got is not None:
+                results[key] = got
+                p.join(5)
+                done.append(key)
+            elif not p.is_alive() or time.time() - t0 > chunk_timeout:
+                why = f"exit code {p.exitcode}" if not p.is_alive() else f"no result after {chunk_timeout} s"
+                if p.is_alive():
+                    p.kill()
+                p.join(5)
+                if len(ch) > 1:          # isolate the case: every case of the chunk again, alone
+                    for j, case in enumerate(ch):
+                        pending.append(((key[0], j + 1), [case]))
+                    results[key] = []
+                else:
+                    desc = str(ch[0])[:300]
+                    results[key] = [("note", (f"worker-crash {modname}.{fname}: the process evaluating this case died ({why}); case skipped: {desc}",)),
+                                    ("add", ("cases_skipped_worker_crash", 1))]
+                done.append(key)
+        for key in done:
+            running.pop(key)[1].close()
+        if not done:
+            time.sleep(0.05)
+    crashed = sum(1 for calls in results.values() for name, args in calls if name == "add" and args[0] == "cases_skipped_worker_crash")
+    if crashed > max(3, len(cases) // 50):     # not a stray crash of one generated program: the environment is broken
+        rep.machinery_failure(f"{crashed} of {len(cases)} cases killed their worker process ({modname}.{fname}): nothing can be concluded")
+    for key in sorted(results):
+        for name, args in results[key]:
             getattr(rep, name)(*args)
